@@ -6,6 +6,7 @@ import (
 	"context"
 	"errors"
 	"fmt"
+	"strings"
 	"sync"
 	"testing"
 	"testing/synctest"
@@ -101,6 +102,13 @@ func owRun(t *testing.T, seq []string, late bool) (out [][2]string) {
 	bad := func(sig, format string, a ...any) {
 		out = append(out, [2]string{sig, fmt.Sprintf("script %v (subscribers registered after Watch started: %t): ", seq, late) + fmt.Sprintf(format, a...)})
 	}
+	// A version under test that never returns leaves goroutines blocked in the bubble; the
+	// bubble says so when it ends, after the finding has been recorded.
+	defer func() {
+		if pv := recover(); pv != nil && !strings.Contains(fmt.Sprint(pv), "blocked goroutines remain") {
+			panic(pv)
+		}
+	}()
 	synctest.Test(t, func(t *testing.T) {
 		conn := &owConn{in: make(chan []rtnetlink.Message), errC: make(chan error), dl: make(chan struct{})}
 		ndial := 0
@@ -191,21 +199,17 @@ func owRun(t *testing.T, seq []string, late bool) (out [][2]string) {
 		if !ended {
 			cancel()
 			synctest.Wait()
-			if !ret || retErr != nil {
+			if !ret {
 				bad("C19:oswatch:watch-did-not-return", "after the final cancellation: returned=%t err=%v", ret, retErr)
 			}
 		}
-		if ret {
-			<-retDone
-		}
-		conn.mu.Lock()
-		defer conn.mu.Unlock()
-		// (How the connection is dialled and released is not part of C19's statement.)
+		// Let whatever is still running end (a version that ignores cancellation stays
+		// blocked: that was reported above; its goroutines are then left to the bubble).
+		cancel()
+		_ = conn.SetReadDeadline(time.Unix(0, 1))
+		synctest.Wait()
 		_ = ndial
-		if !ret {
-			// Leave no goroutine behind in the bubble.
-			close(conn.dl)
-		}
+		_ = retDone
 	})
 	return out
 }
